@@ -57,11 +57,13 @@ func (r raw) Bytes() []byte           { return r }
 type spy struct {
 	called int
 	got    []byte
+	raw    []byte // the buffer's bytes as handed over, not copied: a decoder may keep them
 }
 
 func (s *spy) Unmarshal(b *bytes.Buffer) error {
 	s.called++
 	s.got = append([]byte{}, b.Bytes()...)
+	s.raw = b.Bytes()
 	return nil
 }
 
@@ -359,6 +361,23 @@ func checkCase(c Case) error {
 			if err := fs.GetVar(v, sp2); err != nil || !bytes.Equal(sp2.got, value) {
 				return fmt.Errorf("GetVar disagrees with GetVarWithAttributes: %v", err)
 			}
+			// what a read handed to the decoder belongs to the caller: the firmware changes the variable (same length,
+			// other bytes), it is read again through the same object, and the bytes of the first read are still the old value
+			if len(value) > 0 {
+				flipped := append([]byte{}, stored...)
+				for i := 4; i < len(flipped); i++ {
+					flipped[i] ^= 0xff
+				}
+				afero.WriteFile(mem, wantPath, flipped, 0644)
+				sp3 := &spy{}
+				if err := fs.GetVar(v, sp3); err != nil || !bytes.Equal(sp3.got, flipped[4:]) {
+					return fmt.Errorf("second read of the variable after its value changed: %v, %d bytes", err, len(sp3.got))
+				}
+				if !bytes.Equal(sp.raw, value) || !bytes.Equal(sp2.raw, value) {
+					return fmt.Errorf("the bytes an earlier read handed to its decoder changed when the variable was read again through the same object")
+				}
+				hx.Class("read/earlier_result_kept_across_a_later_read")
+			}
 		}
 	} else {
 		efifs.SetFS(rec)
@@ -382,6 +401,21 @@ func checkCase(c Case) error {
 			}
 			if uint32(at) != c.Stored || buf == nil || !bytes.Equal(buf.Bytes(), value) {
 				return fmt.Errorf("legacy read returned attributes %#x and %d bytes, stored %#x and %d bytes", at, bufLen(buf), c.Stored, len(value))
+			}
+			if len(value) > 0 && !c.Global {
+				flipped := append([]byte{}, stored...)
+				for i := 4; i < len(flipped); i++ {
+					flipped[i] ^= 0xff
+				}
+				afero.WriteFile(mem, wantPath, flipped, 0644)
+				if _, buf2, err := attributes.ReadEfivarsWithGuid(name, lg); err != nil || !bytes.Equal(buf2.Bytes(), flipped[4:]) {
+					return fmt.Errorf("second legacy read of the variable after its value changed: %v", err)
+				}
+				if !bytes.Equal(buf.Bytes(), value) {
+					return fmt.Errorf("the buffer an earlier legacy read returned changed when the variable was read again")
+				}
+				afero.WriteFile(mem, wantPath, stored, 0644)
+				hx.Class("read/earlier_result_kept_across_a_later_read")
 			}
 			// the legacy getters of the secure-boot variables carry the definition's mask: all of its bits are required
 			if getter := map[string]func() (*signature.SignatureDatabase, error){"PK": efi.GetPK, "KEK": efi.GetKEK, "db": efi.Getdb, "dbx": efi.Getdbx}[name]; c.Global && getter != nil {
